@@ -77,7 +77,14 @@ pub fn exports(args: &Args, reg: &[TypeEntry], log: &mut Log) {
         std::env::set_current_dir(&cwd).unwrap();
         verif::reset_registry();
         // directory spelling for this root
-        let (spelling, dname, use_env): (String, &str, bool) = match (k + rng.below(4)) % 5 {
+        let (spelling, dname, use_env): (String, &str, bool) = match (k + rng.below(4)) % 6 {
+            5 => {
+                // through a symbolic link: `lnk` -> `real` (the files are expected where they really are)
+                let _ = std::fs::create_dir_all(cwd.join("real"));
+                #[cfg(unix)]
+                let _ = std::os::unix::fs::symlink(cwd.join("real"), cwd.join("lnk"));
+                ("lnk/out".into(), "w1/w2/real/out", false)
+            }
             0 => (String::new(), "w1/w2/bindings", true), // default ./bindings through export_all()
             1 => ("out".into(), "w1/w2/out", false),
             2 => (cwd.join("out").to_string_lossy().to_string(), "w1/w2/out", false),
